@@ -55,14 +55,14 @@ TReset ==
   /\ done' = 0 /\ doneBy' = [a \in Actors |-> 0]
   /\ torn' = [a \in Actors |-> FALSE]
   /\ lost' = FALSE
-  /\ sawRec' = [a \in Actors |-> FALSE]
+  /\ sawRec' = [a \in Actors |-> FALSE] /\ oldlock' = None /\ oldq' = {}
   /\ l' = l + 1 /\ tmode' = E.h
 
 \* silent: the actor of the next lock event enters an operation (takes the in-process lock)
 TEnter ==
   /\ Has("lock") /\ pc[E.a] = "idle"
   /\ \/ \E k \in {"inc", "blind"} : ObjLock(E.a, "u_want") /\ kind' = [kind EXCEPT ![E.a] = k]
-                                    /\ UNCHANGED <<file, fver, lock, mem, rver, done, doneBy, torn, lost, sawRec>>
+                                    /\ UNCHANGED <<file, fver, lock, mem, rver, done, doneBy, torn, lost, sawRec, oldlock, oldq>>
      \/ Load_Begin(E.a)
      \/ Save_Enter(E.a)
   /\ UNCHANGED <<l, tmode>>
@@ -101,6 +101,7 @@ TUnlock == Has("unlock") /\ (UFS_Unlock(E.a) \/ Load_Unlock(E.a) \/ Save_Unlock(
 \* gone; the file keeps whatever it contained (possibly nothing, if the process had truncated and not yet written).
 TCrash == /\ Has("crash")
           /\ lock' = IF lock = E.a THEN None ELSE lock
+          /\ oldlock' = IF oldlock = E.a THEN None ELSE oldlock /\ oldq' = oldq \ {E.a}
           /\ olock' = [olock EXCEPT ![ObjOf[E.a]] = None]
           /\ pc' = [pc EXCEPT ![E.a] = "idle"]
           /\ UNCHANGED <<file, fver, mem, rver, kind, left, done, doneBy, torn, lost, sawRec>>
